@@ -131,6 +131,15 @@ let lockstep records mismatches =
     let l = L.sort_uniq (fun (a, _) (b, _) -> compare a b) l in
     if L.length l > 2048 then (incr truncated; L.filteri (fun k _ -> k < 2048) l) else l in
   let commit (l : (A.state * string list) list) =
+    (if Sys.getenv_opt "VERIF_AB_SETDBG" <> None && L.length l >= 256 && L.length l > 2 * L.length !cands then begin
+       Printf.printf "# set %d -> %d at line %d (%s)\n" (L.length !cands) (L.length l) !lineno !curline;
+       (match L.rev !cands with (c, _) :: (c2, _) :: _ ->
+          L.iteri (fun t th -> Printf.printf "#   T%d %s | %s\n" t (spc th.A.t_pc) (spc (thread c2 t).A.t_pc)) c.A.threads;
+          L.iteri (fun k g -> match seg_opt c2 k with Some g2 when g2 <> g -> Printf.printf "#   S%d %s\n#      %s\n" k (sseg g) (sseg g2) | _ -> ()) c.A.segs;
+          if c.A.acount <> c2.A.acount then Printf.printf "#   acount differs\n";
+          if c.A.os_list <> c2.A.os_list then Printf.printf "#   os_list differs\n";
+          if c.A.threads <> c2.A.threads then Printf.printf "#   threads differ\n"
+        | _ -> ()) end);
     cands := l;
     if L.length l > !maxset then maxset := L.length l in
   let mapc f = cands := L.map (fun (c, p) -> (f c, p)) !cands in
@@ -359,7 +368,10 @@ let lockstep records mismatches =
                 [(upd_seg c1 s (fun sg -> { sg with A.g_freed = true }), path)]
               | _ -> [])
               ((c, p0) :: (match th.A.t_pc with A.FrL _ | A.Rc2 _ -> settle 0 c p0 t | _ -> [])) in
-        let next = dedupe (L.concat_map one !cands) in
+        (* the page-level summary of a freed segment is dead data: canonical values, so that candidates do not differ in it *)
+        let canon ((c, p) : A.state * string list) =
+          (upd_seg c s (fun sg -> if sg.A.g_freed && sg.A.g_tid <> N0 then { sg with A.g_live = N0; A.g_tfree = N0; A.g_delayed = N0; A.g_visits = N0; A.g_flag = A.coq_USE } else sg), p) in
+        let next = dedupe (L.map canon (L.concat_map one !cands)) in
         if next = [] then fail ~segs:[s] (Printf.sprintf "segment %d is freed by thread %d, but in the model it is neither owned by that thread nor being reclaimed by it" s t)
         else begin commit next; check_inv "the free of a segment" [s] end
       | "X" :: _ -> incr records; fail "the harness could not attribute an access to a modelled location"
@@ -408,8 +420,9 @@ let lockstep records mismatches =
            let e = { k; loc; id = (if loc = "tid" || loc = "bit" then int_of_string id else int_of_string id); o = int_of_string o; nw = int_of_string nw; ids } in
            let fired = L.concat_map (fun (c, p) -> fire 0 c p t e) !cands in
            (* a load of thread_id by the owner / holder that the model does not make *)
+           let first_of_free = ctxs.(t).call = "free" && ctxs.(t).cseg = e.id && not ctxs.(t).started in
            let skipped =
-             if loc = "tid" && k = "L" then
+             if loc = "tid" && k = "L" && not first_of_free then
                L.concat_map (fun (c, p) -> match seg_opt c e.id with
                    | Some g when (not g.A.g_freed) && i_of_n g.A.g_tid = e.o && (i_of_n g.A.g_tid = t + 1 || g.A.g_holder = Some (nat_of_int t)) -> [(c, p)]
                    | _ -> []) !cands
@@ -447,6 +460,12 @@ let lockstep records mismatches =
       if not (L.exists (fun (c, _) -> freed_ok c) fin) then fail "a segment freed in the model is still allocated in the implementation"
     end
   end;
+  (if Sys.getenv_opt "VERIF_AB_SETDBG" <> None then match !cands with
+     | (c, _) :: rest ->
+       L.iteri (fun j (c2, _) -> if j < 6 then begin
+         L.iteri (fun k g -> match seg_opt c2 k with Some g2 when g2 <> g -> Printf.printf "# final cand %d: S%d %s\n#      %s\n" (j + 1) k (sseg g) (sseg g2) | _ -> ()) c.A.segs;
+         if c.A.threads <> c2.A.threads then Printf.printf "# final cand %d: threads differ\n" (j + 1) end) rest
+     | [] -> ());
   (match !cands with (_, path) :: _ -> L.iter (fun p -> bump p; incr model_steps) path | [] -> ());
   Printf.printf "STAT abandon-lockstep lines=%d atomic_steps=%d inv_b_checks=%d model_steps=%d max_state_set=%d final_state_set=%d segments=%d freed=%d skipped_owner_loads=%d stale_ands=%d stutter_loads=%d owner_frees=%d field_loads=%d ignored=%d truncated=%d\n"
     !lineno !steps !inv_checked !model_steps !maxset (L.length !cands) (match !cands with (c, _) :: _ -> L.length c.A.segs | [] -> 0) (Hashtbl.length dead)
